@@ -461,7 +461,7 @@ class VM:
                 key = self.stack.pop()
                 props.insert(0, (key, kind, value))
             for key, kind, value in props:
-                key_str = to_string(key) if not isinstance(key, str) else key
+                key_str = self._to_property_key(key)
                 if kind == "get":
                     obj.define_getter(key_str, value)
                 elif kind == "set":
@@ -707,7 +707,7 @@ class VM:
             key = self.stack.pop()
             if not isinstance(obj, JSObject):
                 raise JSTypeError("Cannot use 'in' operator on non-object")
-            key_str = to_string(key)
+            key_str = self._to_property_key(key)
             # HasProperty: own data or accessor properties, then the prototype chain
             found = False
             cur = obj
@@ -1077,12 +1077,21 @@ class VM:
 
         return False
 
+    def _to_property_key(self, key: JSValue) -> str:
+        """ToPropertyKey: the property name a key value stands for (a plain object is
+        converted with ToPrimitive, hint string, so its own toString is honoured)."""
+        if isinstance(key, str):
+            return key
+        if type(key) is JSObject:
+            key = self._to_primitive(key, "string")
+        return to_string(key)
+
     def _get_property(self, obj: JSValue, key: JSValue) -> JSValue:
         """Get property from object."""
         if obj is UNDEFINED or obj is NULL:
             raise JSTypeError(f"Cannot read property of {obj}")
 
-        key_str = to_string(key) if not isinstance(key, str) else key
+        key_str = self._to_property_key(key)
 
         if isinstance(obj, JSArrayBuffer):
             if key_str == "byteLength":
@@ -1572,7 +1581,7 @@ class VM:
             return "[object Object]"
 
         def hasOwnProperty_fn(*args):
-            key = to_string(args[0]) if args else ""
+            key = self._to_property_key(args[0]) if args else ""
             return obj.has(key)
 
         methods = {
@@ -2392,7 +2401,7 @@ class VM:
         if obj is UNDEFINED or obj is NULL:
             raise JSTypeError(f"Cannot set property of {obj}")
 
-        key_str = to_string(key) if not isinstance(key, str) else key
+        key_str = self._to_property_key(key)
 
         if isinstance(obj, JSFunction):
             # The prototype property of a function is an ordinary writable
@@ -2473,7 +2482,7 @@ class VM:
     def _delete_property(self, obj: JSValue, key: JSValue) -> bool:
         """Delete property from object."""
         if isinstance(obj, JSObject):
-            key_str = to_string(key) if not isinstance(key, str) else key
+            key_str = self._to_property_key(key)
             return obj.delete(key_str)
         return False
 
